@@ -177,3 +177,6 @@ def run(ctx):
         c18_scopes = None
     if c18_scopes is not None:
         c18_scopes.run(ctx)
+    # ---- K1 + K3: the scopes' own de-duplication loops (variables, input fields) vs Model/Scopes.v ----
+    from . import c18_assign
+    c18_assign.run(ctx)
